@@ -20,14 +20,16 @@ from ..astutil import (ERROR_CLASSES, ERROR_ONLY_HELPERS, Locals, bool_eval, cal
 from ..cfg import CFG, ENTRY, EXIT, walk_own
 from ..core import Report
 from ..pyindex import FuncInfo, dotted
+from .scenario import NONE, TooComplex, Walker, const, private_callees
 
 LEVEL = ("resolver convergence only (output equality of two runs is not decided): for responses the statements that only run for a "
          "reference hand exactly one variable (the resolved component) to the shared code, which never asks again whether it was a "
          "reference; the raw parameter / request body flows only into its resolver and an error result leaves before the shared "
          "code reads the component; the chain loop reads nothing that is a stale snapshot of a variable it advances; the "
          "field-by-field copy of a component parameter covers every attribute read downstream; every reference string goes "
-         "through parse_reference_path, on whose accepting paths every non-fragment URL component is empty; lookup misses return "
-         "errors; a schema reference evolves only name/required/python_name/default and records the dependency.")
+         "through parse_reference_path, on whose accepting paths every non-fragment URL component is empty; when the component is "
+         "missing from its table every feasible path of the resolver that consulted the table leaves with an error value (scenario "
+         "walker); a schema reference evolves only name/required/python_name/default and records the dependency.")
 
 URL_FIELDS = ("scheme", "netloc", "path", "params", "query", "fragment")  # field order of urllib.parse.ParseResult
 USE_SITE_ATTRS = {"required", "name", "python_name", "default"}
@@ -42,8 +44,8 @@ def run(rep: Report, ctx: Any) -> str:
                       "read; chain-following loops read the current link, not a snapshot taken before the loop")
     rep.rule("R20.2", "parameter_from_data copies every Parameter attribute that is read downstream")
     rep.rule("R20.3", "every .ref consumer validates through parse_reference_path (or follows a name-keyed component table with a "
-                      "cycle guard); on every accepting path of the validator every non-fragment URL component is empty; lookup misses "
-                      "return errors")
+                      "cycle guard); on every accepting path of the validator every non-fragment URL component is empty; when the "
+                      "looked-up component is missing, every path of the resolver that consulted the table returns an error")
     rep.rule("R20.4", "one class per schema: a reference evolves only required/name/python_name/default of the registered object and "
                       "records the dependency")
 
@@ -224,29 +226,38 @@ def run(rep: Report, ctx: Any) -> str:
                 rep.check(kind is not None, "R20.3", f"{short(f)}::{role_anon(n, f.node)}", "a reference string is used without validation", where(f, n),
                           lhs=norm(par)[:60] if par is not None else None, rhs="parse_reference_path(...)")
     rep.floor("reference_reads", n_ref, 8)
-    # lookup misses return errors
+    # lookup misses return errors - stated on paths (scenario walker): in the scenario "the component is not in the table"
+    # (`<table>.get(...)` yields its default, `<key> in <table>` is false, `<table>[...]` raises KeyError) every path of the resolver
+    # - private helpers walked with their arguments - that has consulted the table leaves with an error value (or an explicit raise).
+    # Whether the miss returns at once, sets a message that one hoisted test turns into the error, or is reported by a helper whose
+    # result the caller passes on, is the same path.
     for fname, table in (("properties._property_from_ref", "classes_by_reference"), ("schemas.parameter_from_reference", "classes_by_reference"),
                          ("responses.response_from_data", "responses")):
         f = ix.func(fname)
-        located = False
-        ok = False
-        for g in region(ix, f):
-            lookups = [n for n in ast.walk(g.node) if _is_lookup(n, table)]
-            if not lookups:
-                continue
-            located = True
-            gcfg = cfg_of(g, cfgs)
-            gerrs = error_names(g.node)
-            got = {nm for nm, ds in Locals(g.node).defs.items() for k, _, v in ds if k == "assign" and v is not None and any(_is_lookup(x, table) for x in ast.walk(v))}
-            miss = [(s, arm) for s in gcfg.stmts() if isinstance(s, ast.If) for arm in _implied_arms(s.test, lambda a, got=got: _missing_when(a, got, table))]
-            here = any(_arm_ends_in_error(gcfg, s, arm, gerrs) for s, arm in miss)
-            if here and g is not f:
-                # the helper's error result leaves the caller as an error, too
-                helpers = {h.name for h in region(ix, f) if h is not f and g in region(ix, h)}
-                here = _gated_uses(ix, f, cfgs, helpers, set(), own_only=True)[0]
-            ok = ok or here
-        rep.require(located, f"lookup in `{table}` in the region of {fname}")
-        rep.check(ok, "R20.3", f"{short(f)}::lookup-miss-is-error", "a dangling reference does not produce an error value", where(f, f.node))
+        helpers = private_callees(ix, f)
+        rep.require(any(_is_lookup(n, table) for g in [f, *helpers] for n in ast.walk(g.node)), f"lookup in `{table}` in the region of {fname}")
+
+        def membership(e: ast.AST, table: str = table) -> bool:
+            return isinstance(e, ast.Compare) and len(e.ops) == 1 and isinstance(e.ops[0], (ast.In, ast.NotIn)) and _is_table(e.comparators[0], table)
+
+        def miss(e: ast.AST, st: Any, w: Any, table: str = table) -> Any:
+            if isinstance(e, ast.Call) and _is_lookup(e, table):
+                return w.peek(e.args[1], st) if len(e.args) > 1 else NONE
+            if membership(e):
+                return const(isinstance(e.ops[0], ast.NotIn))
+            return None
+
+        try:
+            outs = Walker(f, axiom=miss, raises=lambda e, table=table: "KeyError" if isinstance(e, ast.Subscript) and _is_lookup(e, table) else None,
+                          event=lambda e, st, w, table=table: "consulted" if _is_lookup(e, table) or membership(e) else None, inline=helpers).run()
+        except TooComplex as e:
+            rep.require(False, f"paths of {fname} few enough to follow ({e})")
+        after = [o for o in outs if ("consulted" in o.flags or "raised" in o.flags) and o.kind != "iter-end"]
+        rep.require(after, f"path of {fname} that consults `{table}`")
+        no_error = [o for o in after if not (o.kind == "raise" or (o.kind == "return" and o.value.is_error()))]
+        rep.check(not no_error, "R20.3", f"{short(f)}::lookup-miss-is-error", "a dangling reference does not produce an error value", where(f, f.node),
+                  lhs=[f"{'KeyError escapes' if o.kind == 'uncaught' else 'returns a non-error value'} at line {getattr(o.node, 'lineno', '?')}" for o in no_error][:4],
+                  rhs="every path that has found the component missing returns an error")
 
     # ---- R20.4 ---------------------------------------------------------------------------------------------------------------
     pfr = ix.func("properties._property_from_ref")
@@ -604,28 +615,6 @@ def _is_lookup(n: ast.AST, table: str) -> bool:
     if isinstance(n, ast.Call) and isinstance(n.func, ast.Attribute) and n.func.attr == "get" and _is_table(n.func.value, table):
         return True
     return isinstance(n, ast.Subscript) and isinstance(n.ctx, ast.Load) and _is_table(n.value, table)
-
-
-def _missing_when(a: ast.AST, got: set[str], table: str) -> bool | None:
-    """truth value of the atom under which the looked-up component is absent"""
-    def is_got(e: ast.AST) -> bool:
-        return (isinstance(e, ast.Name) and e.id in got) or _is_lookup(e, table) or (isinstance(e, ast.NamedExpr) and any(_is_lookup(x, table) for x in ast.walk(e.value)))
-
-    if is_got(a):
-        return False
-    if isinstance(a, ast.Compare) and len(a.ops) == 1:
-        op, right = a.ops[0], a.comparators[0]
-        if is_got(a.left) and isinstance(right, ast.Constant) and right.value is None:
-            if isinstance(op, (ast.Is, ast.Eq)):
-                return True
-            if isinstance(op, (ast.IsNot, ast.NotEq)):
-                return False
-        if _is_table(right, table):
-            if isinstance(op, ast.NotIn):
-                return True
-            if isinstance(op, ast.In):
-                return False
-    return None
 
 
 def _carried(lp: ast.stmt) -> set[str]:
